@@ -129,15 +129,19 @@ def run(prop, tier, seed, replay, plan, scratch, children, start):
 
     nshards = NPROC
     procs = []
-    for i in range(nshards):
-        rep = os.path.join(scratch, "rep%d.json" % i)
-        cur = os.path.join(scratch, "cur%d.json" % i)
-        log = open(os.path.join(scratch, "log%d.txt" % i), "w")
-        cmd = [binpath, "-prop", prop, "-tier", tier, "-seed", str(seed), "-shard", str(i), "-nshards", str(nshards),
-               "-out", rep, "-cur", cur, "-outdir", outdir]
-        p = subprocess.Popen(cmd, stdout=log, stderr=subprocess.STDOUT, env=env, cwd=scratch)
-        children.append(p)
-        procs.append((i, p, rep, cur, log))
+    bins = [binpath] + [env["VERIF_BIN_" + x.upper()] for x in plan.get("extra", []) if ("VERIF_BIN_" + x.upper()) in env]
+    n = 0
+    for b in bins:
+        for i in range(nshards):
+            rep = os.path.join(scratch, "rep%d.json" % n)
+            cur = os.path.join(scratch, "cur%d.json" % n)
+            log = open(os.path.join(scratch, "log%d.txt" % n), "w")
+            cmd = [b, "-prop", prop, "-tier", tier, "-seed", str(seed), "-shard", str(i), "-nshards", str(nshards),
+                   "-out", rep, "-cur", cur, "-outdir", outdir]
+            p = subprocess.Popen(cmd, stdout=log, stderr=subprocess.STDOUT, env=env, cwd=scratch)
+            children.append(p)
+            procs.append((n, p, rep, cur, log))
+            n += 1
 
     budget = float(os.environ.get("VERIF_WATCHDOG_S", "3000" if tier == "quick" else "27000"))
     deadline = time.time() + budget
